@@ -25,11 +25,45 @@ def sites(prog):
     return out
 
 
+_NDF = {}
+
+
+def null_dest_fails(prog, callee):
+    """does the library function return an error on every path when its dest parameter is NULL? (decided once per callee by the path engine)"""
+    k = (id(prog), callee.name)
+    if k not in _NDF:
+        ok = False
+        d = callee.pnames.get("dest")
+        if d is not None and callee.j["ret_ty"] == "i32":
+            from ..pathflags import Plugin
+            eng = Engine(prog, callee, Plugin(), budget=20000)
+            eng.init_assumptions = [(("cmp", "eq", Lin.atom("&" + d["id"]), Lin.const(0)), True)]
+            try:
+                eng.run()
+                rets = [rv for (rv, st, path) in eng.results]
+                ok = bool(rets) and all(rv is not None and rv[0] == "i" and rv[1].is_const() and rv[1].c != 0 for rv in rets)
+            except BudgetExceeded:
+                ok = False
+        _NDF[k] = ok
+    return _NDF[k]
+
+
+def _mk_plugin(prog, split):
+    def mk():
+        p = AFlags()
+        p.split_alloc = split
+        p.null_dest_fails = lambda callee: null_dest_fails(prog, callee)
+        return p
+    return mk
+
+
 def worker(prog, key):
     tu, name = key
     fn = next(f for f in prog.allfuncs if f.name == name and f.mod["tu"] == tu)
+    nalloc = sum(1 for c in fn.calls() if c.get("callee") in ("malloc", "calloc"))
+    split = nalloc <= 3            # the failure/success fork doubles the paths per allocation: only where that stays small
     try:
-        eng = run_adaptive(prog, fn, lambda: AFlags(), budgets=(150000, 500000), low_set=())
+        eng = run_adaptive(prog, fn, _mk_plugin(prog, split), budgets=(150000, 500000), low_set=())
     except BudgetExceeded as e:
         return dict(budget=str(e))
     finds = {}
@@ -56,6 +90,11 @@ def worker(prog, key):
                                         text="%s: the block allocated at %s is %s without a preceding null test on this path" % (base, site, what) if kind == "unchecked-use"
                                         else "%s: %s of the block allocated at %s" % (base, kind, site)))
         for (r, stt) in allocs:
+            if stt == "failed" and conv_fail(fn, rv, eng, st.facts) is False and not any(v[0] == "unchecked-use" and v[1] == r for v in viol):
+                site = site_name(r)
+                key_ = "C20:failure-reported-as-success:%s:%s" % (base, site_key(r))
+                finds.setdefault(key_, dict(key=key_, rule="A-failed-allocation-fails-the-call", where="%s:%s" % (fn.file, exit_line(fn, path)),
+                                            text="%s: on the path where the allocation at %s returned NULL the function still returns a success value" % (base, site)))
             if stt != "live":
                 continue
             nn = eng.decide(("cmp", "eq", Lin.atom("&" + r), Lin.const(0)), st.facts)
@@ -68,7 +107,28 @@ def worker(prog, key):
             key_ = "C20:leak:%s:%s:exit@%s" % (base, site_key(r), _exit_desc(fn, path, rv))
             finds.setdefault(key_, dict(key=key_, rule="A-leak", where="%s:%s" % (fn.file, line),
                                         text="%s: the block allocated at %s is still owned (not freed) when the function returns through line %s" % (base, site, line)))
-    return dict(findings=list(finds.values()), returns=nret, states=eng.nstates, precision=eng.precision)
+    return dict(findings=list(finds.values()), returns=nret, states=eng.nstates, precision=eng.precision, failure_fork=split)
+
+
+def conv_fail(fn, rv, eng, facts):
+    """True: the returned value is a failure indication; False: it is a success value; None: cannot tell (not judged)"""
+    from .c05 import convention, STATUS_OK
+    conv = convention(fn)
+    if rv is None or conv is None:
+        return None
+    r = eng.as_lin(rv) if rv[0] in ("i", "p") else None
+    if conv == "errno" and r is not None:
+        if r.is_const():
+            return int(r.c) != 0
+        z = eng.decide(("cmp", "eq", r, Lin.const(0)), facts)
+        return None if z is None else (not z)
+    if conv in ("neg", "eof") and r is not None:
+        if r.is_const():
+            return r.c < 0
+        return eng.decide(("cmp", "slt", r, Lin.const(0)), facts)
+    if conv == "ptr" and rv[0] == "p":
+        return True if rv[1] == "null" else None
+    return None
 
 
 def _exit_desc(fn, path, rv=None):
@@ -112,7 +172,7 @@ def run(ck):
         if "budget" in r:
             ck.fail_broken("path-state budget exceeded: " + r["budget"]); continue
         nret += r["returns"]
-        per[k[1]] = dict(sites=len(ss[k]), return_paths=r["returns"], states=r["states"], precision=r["precision"], findings=len(r["findings"]))
+        per[k[1]] = dict(sites=len(ss[k]), return_paths=r["returns"], states=r["states"], precision=r["precision"], findings=len(r["findings"]), failure_fork=r.get("failure_fork"))
         for f in r["findings"]:
             ck.report(f["key"], f["rule"], f["where"], f["text"])
     for n in list(per)[:6]:
